@@ -412,6 +412,8 @@ func (w *World) NewEndpoint(p *PKI, isClient bool, addr, peer Addr, cfg Cfg) (*E
 	if err != nil {
 		return nil, err
 	}
+	conn := e.Conn
+	w.OnCleanup(func() { _ = conn.Close() })
 	return e, nil
 }
 
@@ -425,6 +427,8 @@ func (e *Endpoint) StartHandshake() *Op {
 type Pair struct {
 	W    *World
 	C, S *Endpoint
+	// FirstID is the emission id of the first datagram of this association.
+	FirstID int
 }
 
 // ErrConfig marks a configuration the library refuses at construction.
@@ -441,7 +445,7 @@ func (w *World) NewPair(p *PKI, ccfg, scfg Cfg) (*Pair, error) {
 	if err != nil {
 		return nil, fmt.Errorf("%w: server: %v", ErrConfig, err)
 	}
-	pr := &Pair{W: w, C: c, S: s}
+	pr := &Pair{W: w, C: c, S: s, FirstID: w.EmittedCount()}
 	c.StartHandshake()
 	w.Settle()
 	s.StartHandshake()
@@ -472,3 +476,37 @@ func (p *Pair) CloseAll() {
 
 // PoolRoots exposes the CA pool (for x509-aware oracles).
 func (p *PKI) PoolRoots() *x509.CertPool { return p.Roots }
+
+// Transfer writes payload on from, pumps the network and reads one message on to.
+// It returns what Read returned.
+func (p *Pair) Transfer(n *Net, from, to *Endpoint, payload []byte, horizon time.Duration) ([]byte, error, error) {
+	w := p.W
+	rd := w.Go(to.Name+".Read", func(op *Op) error {
+		buf := make([]byte, 8192)
+		k, err := to.Conn.Read(buf)
+		op.Set(k, append([]byte(nil), buf[:k]...))
+		return err
+	})
+	w.Settle()
+	wr := w.Go(from.Name+".Write", func(op *Op) error {
+		k, err := from.Conn.Write(payload)
+		op.Set(k, nil)
+		return err
+	})
+	_ = n.Pump(horizon, func() bool { return rd.Done() && wr.Done() })
+	if !rd.Done() {
+		// unblock the reader so no goroutine is left behind
+		_ = to.Conn.SetReadDeadline(time.Unix(1, 0))
+		w.Settle()
+		_ = to.Conn.SetReadDeadline(time.Time{})
+	}
+	_, werr := wr.Result()
+	rdone, rerr := rd.Result()
+	if !rdone {
+		rerr = ErrHorizon
+	}
+	if !wr.Done() {
+		werr = ErrHorizon
+	}
+	return rd.Data, rerr, werr
+}
